@@ -31,7 +31,32 @@ def dload(l):
         TERM.get(l["Term"], "FX"), b(l["Local"]), q(l["T0"]), q(l["V0"]), q(l["T1"]), q(l["V1"]))
 
 
+def exact_witnesses(jb):
+    """(L, c, s) of a bar as exact rationals when its length is rational (axis-aligned, Pythagorean):
+    then c^2 + s^2 = 1, c L = dx, s L = dy hold exactly and the structure-level theorems apply to the
+    case as it stands; otherwise the implementation's floats (exact dyadics, c^2 + s^2 = 1 up to an ulp)"""
+    from fractions import Fraction as Fr
+    from math import isqrt
+    try:
+        dx = Fr(float(jb["X2"])) - Fr(float(jb["X1"]))
+        dy = Fr(float(jb["Y2"])) - Fr(float(jb["Y1"]))
+        l2 = dx * dx + dy * dy
+        rn, rd = isqrt(l2.numerator), isqrt(l2.denominator)
+        if l2 > 0 and rn * rn == l2.numerator and rd * rd == l2.denominator:
+            L = Fr(rn, rd)
+            c, s_ = dx / L, dy / L
+            if abs(c - Fr(float(jb["C"]))) < Fr(1, 10 ** 14) and abs(s_ - Fr(float(jb["S_"]))) < Fr(1, 10 ** 14) \
+                    and abs(L - Fr(float(jb["Len"]))) <= Fr(1, 10 ** 13) * L:
+                return L, c, s_
+    except (ValueError, KeyError, OverflowError):
+        pass
+    return None
+
+
 def bar(jb, node_index):
+    w = exact_witnesses(jb)
+    if w is not None:
+        jb = dict(jb, Len=w[0], C=w[1], S_=w[2])
     return ("{| b_n1 := %d; b_n2 := %d; b_l1 := %s; b_l2 := %s;\n"
             "     b_x1 := %s; b_y1 := %s; b_x2 := %s; b_y2 := %s;\n"
             "     b_L := %s; b_c := %s; b_s := %s;\n"
